@@ -422,6 +422,59 @@ fn secret_key_roundtrip(rep: &Report, cen: &mut Census) {
         }
     }
     let secp = secp256k1::Secp256k1::new();
+    // parse_descriptor (the entry point that accepts secret keys) must agree with Descriptor::from_str on
+    // everything that is not a key: every hash kind (non-palindromic digests), locks, thresholds
+    {
+        let h32 = "0102030405060708090a0b0c0d0e0f101112131415161718191a1b1c1d1e1f20";
+        let h20 = "0102030405060708090a0b0c0d0e0f1011121314";
+        let sk = format!("{}/0'/1/*", xprv);
+        if let Ok(pubk) = DescriptorSecretKey::from_str(&sk).and_then(|k| k.to_public(&secp)) {
+            // a second, unrelated public key (the key map would print the secret for every occurrence of `pubk`)
+            let other = DescriptorSecretKey::from_str(&format!("{}/9'/8", xprv)).and_then(|k| k.to_public(&secp)).map(|k| k.to_string()).unwrap_or_default();
+            let bodies = [
+                format!("and_v(v:pk(KEY),sha256({}))", h32),
+                format!("and_v(v:pk(KEY),hash256({}))", h32),
+                format!("and_v(v:pk(KEY),ripemd160({}))", h20),
+                format!("and_v(v:pk(KEY),hash160({}))", h20),
+                format!("and_v(v:pk(KEY),or_d(pk({}),and_v(v:hash256({}),older(5))))", other, h32),
+                format!("thresh(2,pk(KEY),a:hash256({}),a:sha256({}))", h32, h32),
+            ];
+            for b in bodies {
+                for wrap in ["wsh(X)", "sh(wsh(X))", "tr(KEY,X)"] {
+                    let with_secret = wrap.replace('X', &b).replace("KEY", &sk);
+                    let public = wrap.replace('X', &b).replace("KEY", &pubk.to_string());
+                    bump(cen, "parse_descriptor_with_hashes");
+                    let mut viol = |class: &str, what: String| {
+                        rep.violation(Violation {
+                            key: format!("C10|parse_descriptor-{}|{}", class, with_secret),
+                            class: format!("parse_descriptor-{}", class),
+                            what,
+                            case: json!({"descriptor": with_secret}),
+                        });
+                    };
+                    let a = guard(|| Descriptor::<DescriptorPublicKey>::parse_descriptor(&secp, &with_secret));
+                    let bpub = guard(|| Descriptor::<DescriptorPublicKey>::from_str(&public));
+                    match (a, bpub) {
+                        (Ok(Ok((d, km))), Ok(Ok(e))) => {
+                            if d != e || d.to_string() != e.to_string() {
+                                viol("differs-from-from_str", format!("parse_descriptor gives {} but from_str of the public form gives {}", d, e));
+                            } else {
+                                bump(cen, "parse_descriptor_agrees_with_from_str");
+                            }
+                            let back = d.to_string_with_secret(&km);
+                            if canon_hardened(back.split('#').next().unwrap()) != canon_hardened(&with_secret) {
+                                viol("to_string_with_secret", format!("to_string_with_secret gives {}", back));
+                            }
+                        }
+                        (Ok(Ok(_)), _) => viol("public-form-refused", "from_str refuses the public form".into()),
+                        (Ok(Err(e)), Ok(Ok(_))) => viol("refused", format!("parse_descriptor refuses what from_str accepts in public form: {}", e)),
+                        (Err(p), _) | (_, Err(p)) => viol("panic", p),
+                        _ => {}
+                    }
+                }
+            }
+        }
+    }
     for s in strings {
         bump(cen, "secret_key_strings");
         let mut viol = |class: &str, what: String| {
